@@ -93,6 +93,8 @@ type layoutEval struct {
 	params map[types.Object]string
 	ints   map[types.Object]lin // symbolic int locals
 	buf    types.Object
+	alias  map[types.Object]lin // slice parameters of inlined helpers that stand for buf[base:]
+	depth  int
 	res    *layoutResult
 }
 
@@ -190,11 +192,15 @@ func (le *layoutEval) linOf(e ast.Expr) (lin, bool) {
 // bufRange resolves buf, buf[a:], buf[a:b] to (start, width-or-nil).
 func (le *layoutEval) bufRange(e ast.Expr) (start lin, width lin, ok bool) {
 	e = ast.Unparen(e)
-	if prog.IdentObj(le.info, e) == le.buf {
-		return lin{}, nil, true
+	if base, ok := le.bufBase(e); ok {
+		return base, nil, true
 	}
 	sl, isSl := e.(*ast.SliceExpr)
-	if !isSl || prog.IdentObj(le.info, sl.X) != le.buf {
+	if !isSl {
+		return nil, nil, false
+	}
+	base, isBuf := le.bufBase(sl.X)
+	if !isBuf {
 		return nil, nil, false
 	}
 	start = lin{}
@@ -216,7 +222,22 @@ func (le *layoutEval) bufRange(e ast.Expr) (start lin, width lin, ok bool) {
 		}
 		width = h.add(neg)
 	}
-	return start, width, true
+	return start.add(base), width, true
+}
+
+// bufBase: e names the key buffer (offset 0) or a helper parameter bound to buf[base:].
+func (le *layoutEval) bufBase(e ast.Expr) (lin, bool) {
+	o := prog.IdentObj(le.info, ast.Unparen(e))
+	if o == nil {
+		return nil, false
+	}
+	if o == le.buf {
+		return lin{}, true
+	}
+	if b, ok := le.alias[o]; ok {
+		return b, true
+	}
+	return nil, false
 }
 
 func (le *layoutEval) seg(pos token.Pos, start, width lin, kind string) {
@@ -308,8 +329,54 @@ func (le *layoutEval) call(call *ast.CallExpr) (lin, bool) {
 
 // extractLayout abstracts encoder f.
 func (r *Run) extractLayout(f *prog.FuncInfo) *layoutResult {
-	le := &layoutEval{r: r, f: f, info: f.Pkg.TypesInfo, params: paramNames(f), ints: map[types.Object]lin{}, res: &layoutResult{}}
-	for _, st := range f.Decl.Body.List {
+	le := &layoutEval{r: r, f: f, info: f.Pkg.TypesInfo, params: paramNames(f), ints: map[types.Object]lin{}, alias: map[types.Object]lin{}, res: &layoutResult{}}
+	le.block(f.Decl.Body.List)
+	if le.buf == nil {
+		le.problem(f.Decl.Pos(), "no make([]byte, n) buffer found")
+	}
+	return le.res
+}
+
+// helper runs the body of an extracted helper in place: slice parameters given the key buffer (or
+// buf[k:]) alias it, integer parameters take the argument's linear form, other parameters are
+// rendered as the caller's operand; the helper's integer result (if any) is the call's value.
+func (le *layoutEval) helper(call *ast.CallExpr) (ret lin, hasRet bool, handled bool) {
+	hf := le.r.P.FuncInfoOf(le.r.P.CalleeFunc(le.info, call))
+	if !isNewHelper(le.r.P, hf) || le.depth >= 2 || hf.Pkg.TypesInfo != le.info || hf.Decl.Type.Params == nil {
+		return nil, false, false
+	}
+	touches := false
+	k := 0
+	for _, fld := range hf.Decl.Type.Params.List {
+		for _, n := range fld.Names {
+			obj := le.info.Defs[n]
+			if k < len(call.Args) && obj != nil {
+				arg := call.Args[k]
+				if start, width, ok := le.bufRange(arg); ok && width == nil {
+					le.alias[obj] = start
+					touches = true
+				} else if l, ok := le.linOf(arg); ok {
+					le.ints[obj] = l
+				} else {
+					le.params[obj] = le.name(arg)
+				}
+			}
+			k++
+		}
+	}
+	if !touches {
+		return nil, false, false
+	}
+	le.depth++
+	ret, hasRet = le.block(hf.Decl.Body.List)
+	le.depth--
+	return ret, hasRet, true
+}
+
+// block interprets a straight-line statement list; the linear form of a returned integer is
+// handed back (helpers).
+func (le *layoutEval) block(list []ast.Stmt) (ret lin, hasRet bool) {
+	for _, st := range list {
 		switch x := st.(type) {
 		case *ast.AssignStmt:
 			if len(x.Lhs) == 1 && len(x.Rhs) == 1 {
@@ -327,25 +394,28 @@ func (r *Run) extractLayout(f *prog.FuncInfo) *layoutResult {
 					}
 				}
 				// buf[E] = V
-				if ix, ok := ast.Unparen(lhs).(*ast.IndexExpr); ok && prog.IdentObj(le.info, ix.X) == le.buf && le.buf != nil {
-					start, ok := le.linOf(ix.Index)
-					if !ok {
-						le.problem(x.Pos(), "byte store at a non-linear offset")
+				if ix, ok := ast.Unparen(lhs).(*ast.IndexExpr); ok && le.buf != nil {
+					if base, isBuf := le.bufBase(ix.X); isBuf {
+						start, ok := le.linOf(ix.Index)
+						if !ok {
+							le.problem(x.Pos(), "byte store at a non-linear offset")
+							continue
+						}
+						start = start.add(base)
+						kind := ""
+						v := stripConv(le.info, rhs)
+						if tv, ok := le.info.Types[v]; ok && tv.Value != nil {
+							var c int
+							sscanInt(tv.Value.String(), &c)
+							kind = fmt.Sprintf("const:0x%02x", c)
+						} else if l, ok := le.linOf(v); ok {
+							kind = "U8(" + l.String() + ")"
+						} else {
+							kind = "U8(" + le.name(v) + ")"
+						}
+						le.seg(x.Pos(), start, lin{"": 1}, kind)
 						continue
 					}
-					kind := ""
-					v := stripConv(le.info, rhs)
-					if tv, ok := le.info.Types[v]; ok && tv.Value != nil {
-						var c int
-						sscanInt(tv.Value.String(), &c)
-						kind = fmt.Sprintf("const:0x%02x", c)
-					} else if l, ok := le.linOf(v); ok {
-						kind = "U8(" + l.String() + ")"
-					} else {
-						kind = "U8(" + le.name(v) + ")"
-					}
-					le.seg(x.Pos(), start, lin{"": 1}, kind)
-					continue
 				}
 				// offset := E / offset = E / offset += E
 				if o := prog.IdentObj(le.info, lhs); o != nil {
@@ -353,7 +423,9 @@ func (r *Run) extractLayout(f *prog.FuncInfo) *layoutResult {
 						var val lin
 						okv := false
 						if call, ok := ast.Unparen(rhs).(*ast.CallExpr); ok {
-							if w, ok := le.call(call); ok && w != nil {
+							if hv, has, handled := le.helper(call); handled {
+								val, okv = hv, has
+							} else if w, ok := le.call(call); ok && w != nil {
 								val, okv = w, true
 							}
 						}
@@ -380,7 +452,9 @@ func (r *Run) extractLayout(f *prog.FuncInfo) *layoutResult {
 			}
 		case *ast.ExprStmt:
 			if call, ok := ast.Unparen(x.X).(*ast.CallExpr); ok {
-				le.call(call)
+				if _, _, handled := le.helper(call); !handled {
+					le.call(call)
+				}
 			}
 		case *ast.IncDecStmt:
 			if o := prog.IdentObj(le.info, x.X); o != nil {
@@ -392,16 +466,18 @@ func (r *Run) extractLayout(f *prog.FuncInfo) *layoutResult {
 					le.ints[o] = cur.add(lin{"": d})
 				}
 			}
-		case *ast.ReturnStmt, *ast.DeclStmt, *ast.EmptyStmt:
+		case *ast.ReturnStmt:
+			if le.depth > 0 && len(x.Results) == 1 {
+				if l, ok := le.linOf(x.Results[0]); ok {
+					ret, hasRet = l, true
+				}
+			}
+		case *ast.DeclStmt, *ast.EmptyStmt:
 		default:
 			le.problem(st.Pos(), "unsupported statement %T in a key encoder (branching encoders are outside the fragment)", st)
 		}
 	}
-	if le.buf == nil {
-		le.problem(f.Decl.Pos(), "no make([]byte, n) buffer found")
-	}
-	// order by start (they must be sortable: compare constant parts after checking contiguity below)
-	return le.res
+	return ret, hasRet
 }
 
 // checkLayout compares an extracted layout with the expected ordered (width, kind) list
